@@ -132,15 +132,13 @@ func c08fmt(v float64) string { return strconv.FormatFloat(v, 'g', -1, 64) }
 
 func c08measureSyms(k c08kind, set int, vals []float64) []c08sym {
 	var out []c08sym
-	for _, s := range []int{set} {
-		for _, v := range vals {
-			verb := "Add"
-			if k == c08Hist || k == c08EHist || k == c08Gauge {
-				verb = "Record"
-			}
-			out = append(out, c08sym{op: c08opMeasure, kind: k, set: s, val: v,
-				name: fmt.Sprintf("%s.%s(%s, %s)", k, verb, c08fmt(v), c08setDesc[s])})
-		}
+	verb := "Add"
+	if k == c08Hist || k == c08EHist || k == c08Gauge {
+		verb = "Record"
+	}
+	for _, v := range vals {
+		out = append(out, c08sym{op: c08opMeasure, kind: k, set: set, val: v,
+			name: fmt.Sprintf("%s.%s(%s, %s)", k, verb, c08fmt(v), c08setDesc[set])})
 	}
 	return out
 }
@@ -247,9 +245,9 @@ func c08modeName(reuse bool) string {
 //
 //	                quick (both modes)   thorough fresh        thorough reuse
 //	sync-counter    3,2,2                3,3,3,2               3,3,3
-//	sync-updown     2,2,2                3,3,3   (2 shards)    3,2,2
-//	sync-histogram  2,2,2                3,3,3   (2 shards)    3,2,2
-//	sync-expohist   2,2,2                2,2,2   (2 shards)    2,2,1
+//	sync-updown     3,2,2                3,3,3   (2 shards)    3,2,2
+//	sync-histogram  3,2,2                3,3,3   (2 shards)    3,2,2
+//	sync-expohist   3,2,2                3,2,2   (4 shards)    2,2,1
 //	sync-gauge      3,3,3                3,3,3,3               3,3,3
 //	async           2,1,1                3,2,2   (2 shards)    2,2,2
 //	mixed           2,1                  2,1,1   (2 shards)    2,1,1  (2 shards)
@@ -303,9 +301,9 @@ func c08jobs(thorough bool) []*c08job {
 				case c08Counter:
 					b = pick(reuse, bnd{[]int{3, 2, 2}, 1}, bnd{[]int{3, 3, 3, 2}, 1}, bnd{[]int{3, 3, 3}, 1})
 				case c08UpDown, c08Hist:
-					b = pick(reuse, bnd{[]int{2, 2, 2}, 1}, bnd{[]int{3, 3, 3}, 2}, bnd{[]int{3, 2, 2}, 1})
+					b = pick(reuse, bnd{[]int{3, 2, 2}, 1}, bnd{[]int{3, 3, 3}, 2}, bnd{[]int{3, 2, 2}, 1})
 				case c08EHist:
-					b = pick(reuse, bnd{[]int{2, 2, 2}, 1}, bnd{[]int{2, 2, 2}, 2}, bnd{[]int{2, 2, 1}, 1})
+					b = pick(reuse, bnd{[]int{3, 2, 2}, 1}, bnd{[]int{3, 2, 2}, 4}, bnd{[]int{2, 2, 1}, 1})
 				case c08Gauge:
 					b = pick(reuse, bnd{[]int{3, 3, 3}, 1}, bnd{[]int{3, 3, 3, 3}, 1}, bnd{[]int{3, 3, 3}, 1})
 				}
@@ -659,8 +657,6 @@ type c08metric struct {
 
 type c08snap map[string]*c08metric
 
-func c08num[N int64 | float64](v N) float64 { return float64(v) }
-
 func c08parseDPs[N int64 | float64](m *c08metric, typ string, dps []metricdata.DataPoint[N]) {
 	for i := range dps {
 		p := &c08point{start: dps[i].StartTime, time: dps[i].Time, agg: c08agg{typ: typ, val: float64(dps[i].Value)}}
@@ -940,7 +936,8 @@ func (x *c08exec) desc() map[string]any {
 	if x.j.reuse {
 		mode = "one ResourceMetrics per reader reused by every Collect, cumulative reader collected first"
 	}
-	return map[string]any{"number": c08numName(x.j.isInt), "instruments": insts, "collect_mode": mode, "history": steps}
+	return map[string]any{"number": c08numName(x.j.isInt), "instruments": insts, "collect_mode": mode, "history": steps,
+		"attribute_sets": "A = {}, B = {k=b}, C = {k=c,n=1}"}
 }
 
 func (x *c08exec) replay() c08replay {
@@ -1353,24 +1350,24 @@ func (x *c08exec) judge(st *c08stream, d, c *c08metric, sg *c08sigma, d0, d1 tim
 			dp, cp := d.points[name], c.points[name]
 			measured := len(ss.cyc) > 0
 			if dp == nil && measured {
-				x.fail("delta-missing|"+kn, "%s%s was measured in this interval %v but the delta reader reports no point for it", kn, name, ss.cyc)
+				x.fail("delta-missing|"+kn, "%s[%s] was measured in this interval %v but the delta reader reports no point for it", kn, name, ss.cyc)
 			}
 			if dp != nil {
 				want := c08reference(k.dataType(), ss.cyc, &dp.agg)
 				if f := c08diff(&dp.agg, want); f != "" {
-					x.fail("delta-interval|"+kn+"."+f, "delta point of %s%s is <%s>, the measurements of this interval %v amount to <%s>", kn, name, dp.agg.String(), ss.cyc, want.String())
+					x.fail("delta-interval|"+kn+"."+f, "delta point of %s[%s] is <%s>, the measurements of this interval %v amount to <%s>", kn, name, dp.agg.String(), ss.cyc, want.String())
 				}
 				if k == c08Hist && ss.run.typ != "" && len(ss.run.counts) != len(dp.agg.counts) {
-					x.fail("running-total|"+kn+".bucket_layout", "delta point of %s%s has %d buckets, earlier delta points had %d", kn, name, len(dp.agg.counts), len(ss.run.counts))
+					x.fail("running-total|"+kn+".bucket_layout", "delta point of %s[%s] has %d buckets, earlier delta points had %d", kn, name, len(dp.agg.counts), len(ss.run.counts))
 				}
 				ss.run.add(&dp.agg)
 			}
 			if cp == nil && (measured || dp != nil) {
-				x.fail("cumulative-missing|"+kn, "%s%s was measured in this interval (delta point <%s>) but the cumulative reader reports no point for it", kn, name, dp.aggString())
+				x.fail("cumulative-missing|"+kn, "%s[%s] was measured in this interval (delta point <%s>) but the cumulative reader reports no point for it", kn, name, dp.aggString())
 			}
 			if cp != nil {
 				if f := c08diff(&cp.agg, &ss.run); f != "" {
-					x.fail("running-total|"+kn+"."+f, "cumulative point of %s%s is <%s>, the delta points reported so far add up to <%s>", kn, name, cp.agg.String(), ss.run.String())
+					x.fail("running-total|"+kn+"."+f, "cumulative point of %s[%s] is <%s>, the delta points reported so far add up to <%s>", kn, name, cp.agg.String(), ss.run.String())
 				}
 			}
 			ss.cyc = ss.cyc[:0]
@@ -1387,19 +1384,19 @@ func (x *c08exec) judge(st *c08stream, d, c *c08metric, sg *c08sigma, d0, d1 tim
 					lbl string
 				}{{dp, "delta"}, {cp, "cumulative"}} {
 					if rv.p == nil {
-						x.fail("gauge-missing|"+kn+"/"+rv.lbl, "%s%s recorded %v in this cycle but the %s reader reports no point", kn, name, ss.cyc, rv.lbl)
+						x.fail("gauge-missing|"+kn+"/"+rv.lbl, "%s[%s] recorded %v in this cycle but the %s reader reports no point", kn, name, ss.cyc, rv.lbl)
 					} else if rv.p.agg.val != last {
-						x.fail("gauge-last-value|"+kn+"/"+rv.lbl, "%s%s recorded %v in this cycle, the %s reader reports %s", kn, name, ss.cyc, rv.lbl, c08fmt(rv.p.agg.val))
+						x.fail("gauge-last-value|"+kn+"/"+rv.lbl, "%s[%s] recorded %v in this cycle, the %s reader reports %s", kn, name, ss.cyc, rv.lbl, c08fmt(rv.p.agg.val))
 					}
 				}
 			} else {
 				if dp != nil {
-					x.fail("gauge-stale|"+kn+"/delta", "%s%s was not recorded in this cycle but the delta reader reports %s", kn, name, c08fmt(dp.agg.val))
+					x.fail("gauge-stale|"+kn+"/delta", "%s[%s] was not recorded in this cycle but the delta reader reports %s", kn, name, c08fmt(dp.agg.val))
 				}
 				// cumulative reader: whether a set not recorded in this cycle is still reported is
 				// not stated; if it is, it must carry the last value recorded
 				if cp != nil && (!ss.recorded || cp.agg.val != ss.lastRec) {
-					x.fail("gauge-last-value|"+kn+"/cumulative-retained", "%s%s was not recorded in this cycle, last recorded value %s (recorded ever: %v), the cumulative reader reports %s", kn, name, c08fmt(ss.lastRec), ss.recorded, c08fmt(cp.agg.val))
+					x.fail("gauge-last-value|"+kn+"/cumulative-retained", "%s[%s] was not recorded in this cycle, last recorded value %s (recorded ever: %v), the cumulative reader reports %s", kn, name, c08fmt(ss.lastRec), ss.recorded, c08fmt(cp.agg.val))
 				}
 			}
 			ss.cyc = ss.cyc[:0]
@@ -1415,10 +1412,10 @@ func (x *c08exec) judge(st *c08stream, d, c *c08metric, sg *c08sigma, d0, d1 tim
 				lbl string
 			}{{dp, "delta"}, {cp, "cumulative"}} {
 				if seen && rv.p == nil {
-					x.fail("async-missing-set|"+kn+"/"+rv.lbl, "%s%s was observed (%s) by this cycle's callbacks but the %s reader reports no point", kn, name, c08fmt(v), rv.lbl)
+					x.fail("async-missing-set|"+kn+"/"+rv.lbl, "%s[%s] was observed (%s) by this cycle's callbacks but the %s reader reports no point", kn, name, c08fmt(v), rv.lbl)
 				}
 				if !seen && rv.p != nil {
-					x.fail("async-unobserved-set|"+kn+"/"+rv.lbl, "%s%s was not observed by this cycle's callbacks (registered multi-instrument callback: %v) but the %s reader reports %s", kn, name, x.regLive, rv.lbl, c08fmt(rv.p.agg.val))
+					x.fail("async-unobserved-set|"+kn+"/"+rv.lbl, "%s[%s] was not observed by this cycle's callbacks (registered multi-instrument callback: %v) but the %s reader reports %s", kn, name, x.regLive, rv.lbl, c08fmt(rv.p.agg.val))
 				}
 			}
 			if k == c08OGauge {
@@ -1427,7 +1424,7 @@ func (x *c08exec) judge(st *c08stream, d, c *c08metric, sg *c08sigma, d0, d1 tim
 					lbl string
 				}{{dp, "delta"}, {cp, "cumulative"}} {
 					if seen && rv.p != nil && rv.p.agg.val != v {
-						x.fail("async-gauge-value|"+kn+"/"+rv.lbl, "%s%s: last value observed in this cycle is %s, the %s reader reports %s", kn, name, c08fmt(v), rv.lbl, c08fmt(rv.p.agg.val))
+						x.fail("async-gauge-value|"+kn+"/"+rv.lbl, "%s[%s]: last value observed in this cycle is %s, the %s reader reports %s", kn, name, c08fmt(v), rv.lbl, c08fmt(rv.p.agg.val))
 					}
 				}
 			} else {
@@ -1437,11 +1434,11 @@ func (x *c08exec) judge(st *c08stream, d, c *c08metric, sg *c08sigma, d0, d1 tim
 						prev = ss.prevObs
 					}
 					if dp.agg.val != v-prev {
-						x.fail("async-delta|"+kn, "%s%s observed %s, in the preceding cycle %s (observed then: %v): delta must be %s, the delta reader reports %s", kn, name, c08fmt(v), c08fmt(prev), ss.prevHas, c08fmt(v-prev), c08fmt(dp.agg.val))
+						x.fail("async-delta|"+kn, "%s[%s] observed %s, in the preceding cycle %s (observed then: %v): delta must be %s, the delta reader reports %s", kn, name, c08fmt(v), c08fmt(prev), ss.prevHas, c08fmt(v-prev), c08fmt(dp.agg.val))
 					}
 				}
 				if seen && cp != nil && cp.agg.val != v {
-					x.fail("async-cumulative|"+kn, "%s%s observed %s, the cumulative reader reports %s", kn, name, c08fmt(v), c08fmt(cp.agg.val))
+					x.fail("async-cumulative|"+kn, "%s[%s] observed %s, the cumulative reader reports %s", kn, name, c08fmt(v), c08fmt(cp.agg.val))
 				}
 				// running total of the reported delta values; it restarts when the set was not
 				// reported in the preceding cycle (its delta is then taken against zero)
@@ -1451,7 +1448,7 @@ func (x *c08exec) judge(st *c08stream, d, c *c08metric, sg *c08sigma, d0, d1 tim
 					}
 					ss.run.add(&dp.agg)
 					if cp != nil && cp.agg.val != ss.run.val {
-						x.fail("running-total|"+kn+".value", "cumulative point of %s%s is %s, the delta points reported since the set (re)appeared add up to %s", kn, name, c08fmt(cp.agg.val), c08fmt(ss.run.val))
+						x.fail("running-total|"+kn+".value", "cumulative point of %s[%s] is %s, the delta points reported since the set (re)appeared add up to %s", kn, name, c08fmt(cp.agg.val), c08fmt(ss.run.val))
 					}
 				}
 				ss.runLive = dp != nil
@@ -1475,10 +1472,10 @@ func (x *c08exec) judgeTimes(st *c08stream, d, c *c08metric, d0, d1 time.Time) {
 	for _, name := range c08sortedSets(d.points) {
 		p := d.points[name]
 		if p.start.After(p.time) {
-			x.fail("start-after-time|"+kn+"/delta", "delta point %s%s has StartTime %s after Time %s", kn, name, c08ts(p.start), c08ts(p.time))
+			x.fail("start-after-time|"+kn+"/delta", "delta point %s[%s] has StartTime %s after Time %s", kn, name, c08ts(p.start), c08ts(p.time))
 		}
 		if st.dHavePrev && (p.start.Before(st.dPrevLo) || p.start.After(st.dPrevHi)) {
-			x.fail("delta-interval-start|"+kn, "delta point %s%s starts at %s, the previous collection of this stream happened at %s..%s", kn, name, c08ts(p.start), c08ts(st.dPrevLo), c08ts(st.dPrevHi))
+			x.fail("delta-interval-start|"+kn, "delta point %s[%s] starts at %s, the previous collection of this stream happened at %s..%s", kn, name, c08ts(p.start), c08ts(st.dPrevLo), c08ts(st.dPrevHi))
 		}
 	}
 	// the time of this delta collection: what the points say, or the harness clock
@@ -1499,12 +1496,12 @@ func (x *c08exec) judgeTimes(st *c08stream, d, c *c08metric, d0, d1 time.Time) {
 	for _, name := range c08sortedSets(c.points) {
 		p := c.points[name]
 		if p.start.After(p.time) {
-			x.fail("start-after-time|"+kn+"/cumulative", "cumulative point %s%s has StartTime %s after Time %s", kn, name, c08ts(p.start), c08ts(p.time))
+			x.fail("start-after-time|"+kn+"/cumulative", "cumulative point %s[%s] has StartTime %s after Time %s", kn, name, c08ts(p.start), c08ts(p.time))
 		}
 		if !st.cHaveStart {
 			st.cStart, st.cHaveStart = p.start, true
 		} else if !p.start.Equal(st.cStart) {
-			x.fail("cumulative-start-moved|"+kn, "cumulative point %s%s has StartTime %s, earlier cumulative points of this stream had %s", kn, name, c08ts(p.start), c08ts(st.cStart))
+			x.fail("cumulative-start-moved|"+kn, "cumulative point %s[%s] has StartTime %s, earlier cumulative points of this stream had %s", kn, name, c08ts(p.start), c08ts(st.cStart))
 		}
 	}
 }
@@ -1600,6 +1597,10 @@ func (j *c08job) search() {
 	seen := map[string]struct{}{}
 	frontier := [][]c08cycle{nil}
 	cycles := len(j.perCycle)
+	newAtLast := int64(0)
+	defer func() {
+		r.Count("states_first_seen_at_last_level/"+c08family(j.name)+"/"+c08numName(j.isInt)+"/"+c08modeName(j.reuse), newAtLast)
+	}()
 	for level := 1; level <= cycles; level++ {
 		var next [][]c08cycle
 		lastLevel := level == cycles
@@ -1641,6 +1642,11 @@ func (j *c08job) search() {
 					seen[key] = struct{}{}
 					if counted {
 						r.AddStates(1)
+					}
+					if lastLevel {
+						// 0 over all shards of a job family: every reachable canonical state was
+						// expanded, the state graph is closed under the alphabet
+						newAtLast++
 					}
 					if !lastLevel {
 						next = append(next, hist)
